@@ -40,7 +40,8 @@ type scen struct {
 	MaxWB     int    `json:"maxwb"`
 	Seed      int64  `json:"seed"`
 	Leg       string `json:"leg"`
-	Ops       string `json:"ops"` // which operations: "wvs" any of write, writev, sendfile
+	Ops       string `json:"ops"`    // which operations: "wvs" any of write, writev, sendfile
+	Paused    bool   `json:"paused"` // the peer reads nothing until every call was made: a backlog of many queue entries
 }
 
 type summary struct {
@@ -115,7 +116,7 @@ func runScen(s scen, sum *summary) {
 		addr = filepath.Join(tmpdir, fmt.Sprintf("s%d.sock", rnd.Int63()))
 	}
 	var stdLn net.Listener
-	if s.Origin == "dial" {
+	if s.Origin == "dial" || s.Origin == "dialcb" {
 		var err error
 		stdLn, err = net.Listen(network, addr)
 		if err != nil {
@@ -212,6 +213,10 @@ func runScen(s scen, sum *summary) {
 			p := hlib.Payload(sid, 0, total)
 			tr.Emit(hlib.Ev{"ev": "call", "sid": sid, "op": o.kind, "n": total, "buf": true})
 			n, err = c.Write(p)
+			// the caller owns its buffer again once the call has returned: what it writes into it now must not reach the peer
+			for i := range p {
+				p[i] = 0xEE
+			}
 		case "writev":
 			var bs [][]byte
 			off := 0
@@ -221,6 +226,11 @@ func runScen(s scen, sum *summary) {
 			}
 			tr.Emit(hlib.Ev{"ev": "call", "sid": sid, "op": o.kind, "n": total, "buf": true})
 			n, err = c.Writev(bs)
+			for _, b := range bs {
+				for i := range b {
+					b[i] = 0xEE
+				}
+			}
 		case "sendfile":
 			f, ferr := os.CreateTemp(tmpdir, "sf")
 			if ferr != nil {
@@ -279,6 +289,10 @@ func runScen(s scen, sum *summary) {
 			atomic.StoreInt32(&pauseReader, 0)
 			return
 		}
+		if s.Paused {
+			atomic.StoreInt32(&pauseReader, 1)
+			defer atomic.StoreInt32(&pauseReader, 0)
+		}
 		for _, o := range plan {
 			if atomic.LoadInt32(&closedFlag) != 0 {
 				return
@@ -301,10 +315,12 @@ func runScen(s scen, sum *summary) {
 	var dataOnce sync.Once
 	prep := func(c *nbio.Conn) {
 		atomic.StoreInt32(&connFd, int32(nbio.VerifFd(c)))
-		_ = c.SetWriteBuffer(16384)
+		if !s.Paused {
+			_ = c.SetWriteBuffer(16384)
+		}
 	}
 	g.OnOpen(func(c *nbio.Conn) {
-		if s.Origin == "dial" {
+		if s.Origin == "dial" || s.Origin == "dialcb" {
 			return
 		}
 		prep(c)
@@ -336,7 +352,7 @@ func runScen(s scen, sum *summary) {
 
 	// ---- the peer ----
 	var peer net.Conn
-	if s.Origin == "dial" {
+	if s.Origin == "dial" || s.Origin == "dialcb" {
 		accCh := make(chan net.Conn, 1)
 		go func() {
 			pc, err := stdLn.Accept()
@@ -351,6 +367,9 @@ func runScen(s scen, sum *summary) {
 				return
 			}
 			prep(c)
+			if s.Origin == "dialcb" {
+				runPlan(c, plans[0]) // writer 0 runs inside the dial callback
+			}
 			dialed <- c
 		})
 		if err != nil {
@@ -378,7 +397,8 @@ func runScen(s scen, sum *summary) {
 		}
 	}
 	defer peer.Close()
-	if tc, ok := peer.(*net.TCPConn); ok {
+	if tc, ok := peer.(*net.TCPConn); ok && !s.Paused {
+		// (the paused scenarios keep the kernel's default buffers: a flush then hands over many queue entries without EAGAIN)
 		_ = tc.SetReadBuffer(16384)
 	}
 	if uc, ok := peer.(*net.UnixConn); ok {
@@ -394,7 +414,7 @@ func runScen(s scen, sum *summary) {
 		peer.Write([]byte("go"))
 	}
 	from := 0
-	if s.Origin == "onopen" || s.Origin == "ondata" {
+	if s.Origin == "onopen" || s.Origin == "ondata" || s.Origin == "dialcb" {
 		from = 1
 	}
 	startWriters(c, from)
